@@ -13,6 +13,7 @@ RULE = ("2-3 driver objects of any mix of RF24, FakeBLE, RF24Network, RF24Networ
         "after the constructor is the first established state), and PWR_UP=0 and CE low after "
         "every __exit__. Non-trivial: a re-entry was compared after another object had changed "
         "at least one register; distinct = distinct (class mix, block order, calls).")
+RULE += (" Later rounds added: a focused pipe/address alphabet, nested with-blocks, print_details()/print_pipes().")
 REQUIRED = {"reentry_compare": 2000, "exit_state": 2000, "foreign_change_seen": 500}
 BUDGET = {"quick": 480, "thorough": 900}
 
